@@ -302,3 +302,22 @@ LISTENERS_PARTIAL_FIRST = dict(_case(
 LISTENERS_PARTIAL_FIRST_2 = dict(LISTENERS_PARTIAL_FIRST, listeners=["records", "starts+ends", "all"],
                                  project=dict(LISTENERS_PARTIAL_FIRST["project"], nb_threads=2))
 LISTENER_CONTROLS = [LISTENERS_PARTIAL_FIRST, LISTENERS_PARTIAL_FIRST_2]
+
+# the SAVED report: suite b = [x1 depends on a.s, x2 depends on a.f (x2 fails)]; with 2 workers a.s is held until b.x2 has
+# ended, so x2 starts, fails — the report is saved (at_each_failed_test / at_each_test) — before x1 starts.  The file saved
+# at the end must list x1 before x2, as the file of the 1-thread run does.
+SAVED_ORDER = dict(_case(
+    _p([_s("a", [_t("s", [], [_GATE, _LOG]), _t("f", [], [_LOG], rank=2)]),
+        _s("b", [_t("x1", [], [_LOG], deps=[["a", "s"]]), _t("x2", [], [_ERR], deps=[["a", "f"]], rank=2)], rank=2)]),
+    _cfg(2, "fifo")), files={"backends": ["json"], "saving": "at_each_test"})
+
+# the real json + junit backends saving the report at each test (the junit backend walks the whole report at every save):
+# the failure comes AFTER the first save, in the same top-level suite; no session teardown.  The run's verdict (return
+# value, report success flag) must see it.
+LATE_FAILURE_WITH_FILE_BACKENDS = dict(_case(
+    _p([_s("s0", [_t("t0", [], [_LOG]), _t("t1", [], [_LOG], rank=2), _t("t2", [], [_ERR], rank=3)])]), _cfg(1)),
+    files={"backends": ["json", "junit"], "saving": "at_each_test"})
+LATE_TEARDOWN_FAILURE_WITH_FILE_BACKENDS = dict(_case(
+    _p([_s("s0", [_t("t0", [], [_LOG]), _t("t1", [], [_LOG], rank=2)], teardown_suite=[_ERR])]), _cfg(2)),
+    files={"backends": ["json", "junit"], "saving": "at_each_log"})
+FILE_BACKEND_CONTROLS = [LATE_FAILURE_WITH_FILE_BACKENDS, LATE_TEARDOWN_FAILURE_WITH_FILE_BACKENDS]
